@@ -102,6 +102,7 @@ def candidates(case):
                 continue
             for key, neutral in (('cleanup', []), ('handler', []),
                                  ('cleanup_outcome', None),
+                                 ('exc_noargs', None),
                                  ('forever', False), ('critical', False),
                                  ('outcome', 'ret'), ('cls', 'abstract')):
                 if m.get(key) != neutral:
